@@ -78,7 +78,10 @@ def run(ctx):
             ctx.case(('level', depth, cmax, v), True)
             if mo is not None:
                 want = b2f(mo[k])
-                if got != want and abs(v / cmax * (2 ** depth - 1) - round(v / cmax * (2 ** depth - 1))) > 1e-3:
+                # save_image computes in float32 (np.float32 copy), the model at Float is float64: a scaled value within float32 resolution of an
+                # integer truncates to either neighbour depending on the precision; such ties are not compared
+                prod = v / cmax * (2 ** depth - 1)
+                if got != want and abs(prod - round(prod)) > max(1e-3, 3 * 2.0 ** -23 * abs(prod)):
                     ctx.alarm('correspondence', 'save_image level for v=%r cmax=%r depth=%d: file has %r, model %r' % (v, cmax, depth, got, want))
         if ctx.drv_ok:
             ch = [int(x) for x in ' '.join(ctx.model.ask(['save_load_channel %d' % k for k in range(4)])).split()]
